@@ -210,6 +210,8 @@ def g_t3_lemma(tier, cfgs=("s",), rules=(0, 1, 2, 3)):
 def g_t2(tier):
     out = [I("t2_search", defs=["SORTED=1"], flags=UW(100), cap=240, rss=1.5),
            I("t2_search", defs=["SORTED=0", "LINEAR_PREFIX=256"], flags=UW(258), cap=300, rss=2.5)]
+    # (a cell for a match among the LAST 256 entries of an unsorted list costs as much as the whole scan --
+    #  15 GB -- so the tail of the linear scan is covered by the thorough tier only)
     if tier == "thorough":
         out.append(I("t2_search", defs=["SORTED=0"], flags=UW(2050), cap=2400, rss=26.0))
     return out
@@ -264,29 +266,30 @@ def P(pid, instances, **kw):
     PROPS[pid] = kw
 
 
-P("C01", lambda t: g_k2()[1:3] + g_k3() + g_p1() + [I("p2_layout")] + g_p3(t) + g_p4(t) + g_p5() + g_p6()
+P("C01", lambda t: g_k2()[1:3] + g_k3() + g_p1() + [I("p2_layout"), I("p3_lazy", cfg="u", defs=["P3_LEN=48"], flags=UW(51), cap=120, rss=0.5)] + g_p3(t) + g_p4(t) + g_p5() + g_p6()
   + g_t1(t) + g_t2(t) + g_t3_lemma(t) + g_t4())
 P("C02", lambda t: g_k2() + g_p5() + g_p6() + [I("p7_load")] + g_t3_lemma(t) + g_t4())
-P("C03", lambda t: g_k2()[1:2] + g_k3() + g_p1() + [I("p2_layout")] + g_t4_meta() + (g_t4() if t == "thorough" else []))
+P("C03", lambda t: g_k2()[1:2] + g_k3() + g_p1() + [I("p2_layout")] + g_t4_meta() + g_t4() + g_p5())
 P("C04", lambda t: [I("k7_keygen"), I("k7_inject"), I("k8_crypt"), I("k9_create"), I("k4_birthday"), I("p7_load"), I("k7_keygen", cfg="sb")] + g_p5() + g_k3())
-P("C05", lambda t: [I("k2_coin"), I("k2_eval"), I("p2_layout")] + g_p5() + g_p6())
+P("C05", lambda t: [I("k1_mul2"), I("k2_coin"), I("k2_eval"), I("p2_layout")] + g_p5() + g_p6() + g_t2(t))
 # the codecs are byte-wise: re-run on CBMC's big-endian memory model (build configuration "sb")
 P("C06", lambda t: [I("k6_store"), I("k6_load"), I("p7_load"), I("p7_store"), I("k6_store", cfg="sb"), I("k6_load", cfg="sb"), I("p7_load", cfg="sb")])
 P("C07", lambda t: g_t4(selffind=(t == "thorough")) + g_t1(t) + g_t2(t) + g_t3_lemma(t))
 P("C08", lambda t: g_t1(t) + g_t1_long() + g_t2(t) + g_t3_lemma(t) + g_t4(selffind=(t == "thorough")) + g_p3(t) + g_p5() + g_p6())
 P("C09", lambda t: g_p4(t) + g_p5() + g_p6() + g_t1(t, rules=(0, 1)))
-P("C10", lambda t: [I("k5_features"), I("k5_default"), I("k9_create"), I("p7_load"), I("p7_store"), I("k8_crypt"), I("h_inject")] + g_p5() + g_k3() + [I("k6_store")])
+P("C10", lambda t: [I("k5_features"), I("k5_default"), I("k4_birthday"), I("k9_create"), I("p7_load"), I("p7_store"), I("k8_crypt"), I("h_inject")] + g_p5() + g_k3() + [I("k6_store")])
 P("C11", lambda t: [I("k4_birthday"), I("k9_create"), I("k8_crypt"), I("p7_store")] + g_k3() + [I("k6_store")])
 K8_LONG = dict(defs=["PWMAX=500", "PW_PREFIX=490", "DEP_PW_COPY=512", "DEP_STR_MAX=1", "K8_LIGHT=1"], flags=UW(515), cap=1800, rss=11.0)
 K8_MID = dict(defs=["PWMAX=72", "PW_PREFIX=64", "DEP_PW_COPY=80", "DEP_STR_MAX=1", "K8_LIGHT=1"], flags=UW(83), cap=600, rss=2.0)
-P("C12", lambda t: [I("k8_crypt"), I("k8_crypt", **K8_MID)] + ([I("k8_crypt", defs=["PWMAX=20"], cap=900, rss=3.0), I("k8_crypt", **K8_LONG)] if t == "thorough" else [])
+P("C12", lambda t: [I("k8_crypt"), I("k8_crypt", **K8_MID), I("k8_crypt", cfg="u"), I("p3_lazy", cfg="u", defs=["P3_LEN=48"], flags=UW(51), cap=120, rss=0.5),
+                    I("k6_load"), I("k6_store"), I("p7_load"), I("p7_store")] + ([I("k8_crypt", defs=["PWMAX=20"], cap=900, rss=3.0), I("k8_crypt", **K8_LONG)] if t == "thorough" else [])
   + g_p3(t) + g_k2()[1:3] + g_k3())
 P("C13", lambda t: g_api() + [I("k5_features"), I("k5_default"), I("k4_birthday"), I("p2_layout"), I("p6_auto")] + g_p5() + g_k3())
 P("C14", lambda t: g_p3(t) + g_p4(t) + g_t1_safety() + g_t1_long() + g_t1(t) + g_p5() + g_p6() + [I("p7_load"), I("k8_crypt")])
 P("C15", lambda t: [I("k9_create"), I("p7_load"), I("h_free"), I("h_inject")] + g_p5())
 P("C16", lambda t: [I("k8_crypt"), I("k9_create"), I("p2_layout"), I("p7_load"), I("p7_store"), I("k7_keygen"), I("h_free"), I("p6_wipe")] + g_p5())
 P("C17", lambda t: g_c17(["ko", "jp", "fr"] if t == "quick" else LANGS) + g_p3(t) + [I("p2_layout")] + g_p5())
-P("C18", lambda t: [I("k9_create"), I("h_inject"), I("k7_keygen"), I("k8_crypt"), I("p7_load"), I("h_free")] + g_p5())
+P("C18", lambda t: [I("k9_create"), I("h_inject"), I("k7_keygen"), I("k8_crypt"), I("p7_load"), I("h_free"), I("p6_wipe"), I("p2_layout")] + g_p5())
 def g_k_unsigned():
     # the codec / API layer is supposed to use no plain char: checked, not assumed
     return [I(h, cfg="u") for h in ("k3_pack", "k3_unpack", "k6_store", "k6_load", "k5_features", "k7_keygen", "k9_create", "p7_load", "p5_decode", "p5_decode_explicit", "k8_crypt")]
